@@ -229,7 +229,7 @@ func Run(r *fw.Run) {
 		"third-party code (client-go, apimachinery, np-guard/models) is exercised, and trusted only for printing IP ranges",
 	}
 	if r.Quick() {
-		r.SetBudget(150 * time.Second)
+		r.SetBudget(300 * time.Second)
 	} else {
 		r.SetBudget(25 * time.Minute)
 	}
